@@ -188,6 +188,8 @@ class ConnInterp:
                 return Scal("none")
             if isinstance(n.value, (int, float)) and not isinstance(n.value, bool):
                 return Scal("lit", n.value)
+            if isinstance(n.value, str):
+                return Scal("str", n.value)
             return UNK
         if isinstance(n, ast.UnaryOp) and isinstance(n.op, ast.USub):
             v = self.lit(n)
@@ -238,7 +240,7 @@ class ConnInterp:
                 k = str_const(n.slice)
                 if k is None:
                     sv = self.ev(n.slice, st, f, depth)
-                    if isinstance(sv, Scal) and sv.kind == "name":
+                    if isinstance(sv, Scal) and sv.kind in ("name", "str"):
                         k = sv.v
                 if k is not None:
                     return Src(k)
@@ -591,6 +593,14 @@ class ConnInterp:
                                 if isinstance(val, Arr) and val.sent[0] == "decl" and owner.key in val.srcs | {"*"}:
                                     st.env[nm] = val.op("path: no _FillValue attribute", sent=("nan?",))
                 return True
+            if isinstance(op, (ast.In, ast.NotIn, ast.Eq, ast.NotEq)) and str_const(l) is None:
+                lv = self.ev(l, st, f, depth)
+                if isinstance(lv, Scal) and lv.kind == "str":
+                    coll = self.str_collection(r, f)
+                    if isinstance(op, (ast.In, ast.NotIn)) and isinstance(coll, tuple):
+                        return (lv.v in coll) == (truth if isinstance(op, ast.In) else not truth)
+                    if isinstance(op, (ast.Eq, ast.NotEq)) and str_const(r) is not None:
+                        return (lv.v == str_const(r)) == (truth if isinstance(op, ast.Eq) else not truth)
             if isinstance(op, (ast.Is, ast.IsNot)) and isinstance(r, ast.Constant) and r.value is None:
                 isnone = truth if isinstance(op, ast.Is) else not truth
                 v = self.ev(l, st, f, depth)
@@ -618,8 +628,39 @@ class ConnInterp:
             return True
         return True
 
+    def str_collection(self, node, f):
+        """tuple of strings for a literal tuple/list/set of strings or a module-level NAME bound to one (None otherwise)"""
+        if isinstance(node, (ast.Tuple, ast.List, ast.Set)) and all(str_const(e) is not None for e in node.elts):
+            return tuple(str_const(e) for e in node.elts)
+        if isinstance(node, ast.Name):
+            for stn in f.module.tree.body:
+                if isinstance(stn, ast.Assign) and len(stn.targets) == 1 and isinstance(stn.targets[0], ast.Name) and stn.targets[0].id == node.id:
+                    return self.str_collection(stn.value, f) if not isinstance(stn.value, ast.Name) else None
+        return None
+
     def stmt(self, n, states, f, depth):
         out = []
+        # a conditional expression choosing between string literals (a variable name picked per mesh type, say) is evaluated as the branch it is
+        if isinstance(n, (ast.Assign, ast.Return, ast.AugAssign)) and n.value is not None:
+            ife = next((x for x in ast.walk(n.value) if isinstance(x, ast.IfExp) and (str_const(x.body) is not None or str_const(x.orelse) is not None)), None)
+            if ife is not None:
+                import copy
+                for truth, pick in ((True, "body"), (False, "orelse")):
+                    class _T(ast.NodeTransformer):
+                        def visit_IfExp(self_, x):
+                            if x is ife_copy:
+                                return getattr(x, pick)
+                            return self_.generic_visit(x)
+                    n2 = copy.deepcopy(n)
+                    # locate the copy of `ife` by position in the walk order
+                    idx = [i for i, x in enumerate(ast.walk(n.value)) if x is ife][0]
+                    ife_copy = list(ast.walk(n2.value))[idx]
+                    n2 = _T().visit(n2)
+                    for s in states:
+                        b = s.fork()
+                        if self.refine(ife.test, truth, b, f, depth) is not False:
+                            out += self.stmt(n2, [b], f, depth)
+                return out
         if isinstance(n, ast.If):
             for s in states:
                 a = s.fork()
